@@ -156,9 +156,7 @@ class C04(Check):
             n_all = int(os.environ["C04_N"])
         for ci, cfg in enumerate(cfgs):
             main = (cfg["rpath"] == "/" and not cfg["filemode"])
-            n = n_all if main else n_all - 1
-            if main and tier == "quick" and cfg["suffix"]:
-                n = n_all - 1
+            n = n_all if (main and not cfg["suffix"] and (tier == "quick" or not cfg["template"])) else n_all - 1
             strings = list(fileh.tokens_upto(ALPHABET, n))
             for tftp in (False, True):
                 if "/" in cfg["suffix"] and not tftp:
@@ -185,7 +183,7 @@ class C04(Check):
                                 seen.add(u)
                                 yield {"tftp": tftp, "cfg": cfg, "uri": u}
                     # random longer requests and over-long segments
-                    for _ in range(150 if tier == "quick" else 3000):
+                    for _ in range(150 if tier == "quick" else 1500):
                         k = rng.randrange(n + 1, n + 6)
                         u = pre + "".join(rng.choice(ALPHABET) if rng.random() < 0.85 else
                                           rng.choice(["%%%02x" % rng.randrange(256), chr(rng.randrange(1, 256)),
